@@ -455,6 +455,48 @@ fn native_mdl_write_parse_identity() {
     println!("NATIVE native_mdl_write_parse_identity cases={cases}");
 }
 
+//@unit props=C06,C07 label=B tier=quick native=1 fn=model::MDL::{from_existing,write_to_buffer,update_headers} bound="by execution: the resource model given 1 and 2 terrain-shadow meshes with 3 and 5 terrain-shadow sub-meshes (distinct field values), headers refreshed, written and parsed back"
+//@desc a model with terrain-shadow tables keeps its ordinary sub-mesh ranges, names and geometry through write + parse, and the written runtime block stores the tables in the format's order: mesh table, attribute name offsets, terrain-shadow meshes, sub-meshes, terrain-shadow sub-meshes (each located in the written bytes by its own distinctive records)
+#[test]
+fn native_mdl_terrain_shadow_tables() {
+    let bytes = native_resource("c0201e0038_top_zeroed.mdl");
+    let original = MDL::from_existing(&bytes).expect("resource model parses");
+    let mut cases = 0u64;
+    let find = |hay: &[u8], needle: &[u8]| -> Vec<usize> { (0..hay.len().saturating_sub(needle.len())).filter(|i| &hay[*i..*i + needle.len()] == needle).collect() };
+    for (nm, ns) in [(1usize, 3usize), (2, 5)] {
+        let mut mdl = MDL::from_existing(&bytes).unwrap();
+        mdl.model_data.terrain_shadow_meshes = (0..nm).map(|k| TerrainShadowMesh { index_count: 0x5A00_0001 + k as u32, start_index: 0x5A10_0000 + k as u32, vertex_buffer_offset: 0x5A20_0000, vertex_count: 0x5A3 + k as u16, submesh_index: k as u16, submesh_count: 1, vertex_buffer_stride: 12, padding: 0 }).collect();
+        mdl.model_data.terrain_shadow_submeshes = (0..ns).map(|k| TerrainShadowSubmesh { index_offset: 0x6B00_0000 + k as u32 * 7, index_count: 0x6B10_0003 + k as u32, unknown1: 0x6B2 + k as u16, unknown2: 0x6B3 }).collect();
+        mdl.model_data.header.terrain_shadow_mesh_count = nm as u8;
+        mdl.model_data.header.terrain_shadow_submesh_count = ns as u16;
+        mdl.update_headers();
+        let out = mdl.write_to_buffer().expect("write");
+        let back = MDL::from_existing(&out).expect("a written model with terrain-shadow tables parses");
+        assert!(back.model_data == mdl.model_data, "model header data incl. both terrain-shadow tables survives write + parse ({nm} meshes, {ns} sub-meshes)");
+        for (l, (la, lb)) in original.lods.iter().zip(back.lods.iter()).enumerate() { for (p, (pa, pb)) in la.parts.iter().zip(lb.parts.iter()).enumerate() {
+            assert!(pa.vertices == pb.vertices && pa.indices == pb.indices, "geometry of LOD {l} part {p} is unaffected by the terrain-shadow tables");
+            assert_eq!(pa.submeshes.iter().map(|s| (s.index_offset, s.index_count)).collect::<Vec<_>>(), pb.submeshes.iter().map(|s| (s.index_offset, s.index_count)).collect::<Vec<_>>(), "sub-mesh ranges of LOD {l} part {p}");
+        } }
+        assert_eq!((&back.material_names, &back.affected_bone_names), (&original.material_names, &original.affected_bone_names), "names");
+        // layout of the written runtime block, located by distinctive records
+        let runtime_end = mdl.model_data.lods[0].vertex_data_offset as usize;
+        let head = &out[..runtime_end];
+        let first_mesh: Vec<u8> = { let m = &mdl.model_data.meshes[0]; let mut v = vec![]; v.extend_from_slice(&m.vertex_count.to_le_bytes()); v.extend_from_slice(&0u16.to_le_bytes()); v.extend_from_slice(&m.index_count.to_le_bytes()); v };
+        let tsm: Vec<u8> = { let mut v = vec![]; v.extend_from_slice(&0x5A00_0001u32.to_le_bytes()); v.extend_from_slice(&0x5A10_0000u32.to_le_bytes()); v };
+        let sub0: Vec<u8> = { let s0 = &mdl.model_data.submeshes[0]; let mut v = vec![]; v.extend_from_slice(&s0.index_offset.to_le_bytes()); v.extend_from_slice(&s0.index_count.to_le_bytes()); v.extend_from_slice(&s0.attribute_index_mask.to_le_bytes()); v };
+        let tss: Vec<u8> = { let mut v = vec![]; v.extend_from_slice(&0x6B00_0000u32.to_le_bytes()); v.extend_from_slice(&0x6B10_0003u32.to_le_bytes()); v };
+        let (pm, pt, pts) = (find(head, &first_mesh), find(head, &tsm), find(head, &tss));
+        assert!(pt.len() == 1 && pts.len() == 1 && !pm.is_empty(), "the distinctive terrain-shadow records are found once in the runtime block");
+        let psub: Vec<usize> = find(head, &sub0).into_iter().filter(|o| *o > pt[0]).collect();
+        assert!(!psub.is_empty(), "the first ordinary sub-mesh record is stored after the terrain-shadow mesh table");
+        assert_eq!(psub[0], pt[0] + 20 * nm, "sub-mesh table directly after the {nm} 20-byte terrain-shadow mesh records");
+        assert_eq!(pts[0], psub[0] + 16 * mdl.model_data.submeshes.len(), "terrain-shadow sub-mesh table directly after the ordinary sub-mesh table (16 bytes per record)");
+        assert!(pm[0] < pt[0], "mesh table before the terrain-shadow tables");
+        cases += 1;
+    }
+    println!("NATIVE native_mdl_terrain_shadow_tables cases={cases}");
+}
+
 //@unit props=C06 label=B tier=quick native=1 fn=model::MDL::from_existing bound="by execution: the resource model written with a two-stream layout for mesh 5 whose extra slots are then re-declared, in the file bytes, as the (usage, type) pairs only the reader knows (BlendIndices UnsignedShort4, BlendWeights UnsignedShort4, UV Half2, UV ByteFloat4, Tangent ByteFloat4) and filled with distinct stored values for each of the 110 vertices"
 //@desc the reader finds each attribute at LOD vertex offset + stream offset + element offset + stride*k and decodes it by its (usage, type) pair: 16-bit blend indices narrowed to bytes in order, 16-bit blend weights as numbers in order, Half2 UVs into uv0 only, byte UVs as x/255 into uv0 and uv1, tangents ignored; the other attributes of the same vertices are unaffected; no attribute is read past its own bytes (a file that ends with the last vertex's last element decodes to the same vertices)
 #[test]
